@@ -296,6 +296,10 @@ theorem maxReq_decodeR {σ : Type} (I : InputOps σ) : ∀ ty : Ty, layoutOk ty 
     simp only [decodeR, reqMaxOne]
     exact MaxReq.descend (MaxReq.alloc (Nat.le_max_left _ _)
       (MaxReq.bind (ih.mono (Nat.le_max_right _ _)) fun _ => MaxReq.ascend (MaxReq.pure _ _)))
+  | .wrap t, hl => by
+    have ih := maxReq_decodeR I t (by simpa [layoutOk] using hl)
+    simp only [decodeR, reqMaxOne]
+    exact MaxReq.descend (MaxReq.bind ih fun _ => MaxReq.ascend (MaxReq.pure _ _))
   | .range t, hl => by
     have ih := maxReq_decodeR I t (by simpa [layoutOk] using hl)
     simp only [decodeR, reqMaxOne]
